@@ -1532,10 +1532,24 @@ impl<'r> Lowerer<'r> {
                 })
             }
             ValueKind::Constant => {
-                if !fields.is_empty() {
-                    panic!("Getting fields of constants not supported yet")
+                if fields.is_empty() {
+                    return Value::Constant(*name, root_ty);
                 }
-                Value::Constant(*name, root_ty)
+
+                // Reading a field of a constant: copy the constant into a
+                // temporary (dropped with the current frame) and read the
+                // field from that copy.
+                let var = self
+                    .assign_to_var(Value::Constant(*name, root_ty), root_ty);
+
+                let projection =
+                    fields.iter().map(|f| Projection::Field(f.0)).collect();
+
+                Value::Clone(Place {
+                    var,
+                    root_ty,
+                    projection,
+                })
             }
             ValueKind::Context(x) => Value::Context(*x),
         }
